@@ -297,6 +297,14 @@ def _rewrite_iters(body: str, rules: Counter) -> str:
                         new = (f'let __kids = children_vec(&{t}, {arg}); let mut __i: usize = 0; while __i < __kids.len() {{ '
                                f'let {x} = __kids[__i];' + inner + ' __i += 1; }')
                     rules['I7'] += 1
+            # I7c: for (P, X) in T.children(I).enumerate() {
+            if new is None:
+                mt = re.fullmatch(r'for\((\w+),(\w+)\)in ([\w\.]+)\.children\(([^()]*)\)\.enumerate\(\)', h)
+                if mt:
+                    pz, x, t, arg = mt.groups()
+                    new = (f'let __kids = children_vec(&{t}, {arg}); let mut __i: usize = 0; while __i < __kids.len() {{ '
+                           f'let {pz} = __i; let {x} = __kids[__i];' + inner + ' __i += 1; }')
+                    rules['I7'] += 1
             # I8: for X in T.terminal_indices().collect_vec() {   (index order of the arena, via a trusted helper)
             if new is None:
                 mt = re.fullmatch(r'for (\w+) in ([\w\.]+)\.terminal_indices\(\)\.collect_vec\(\)', h)
@@ -424,9 +432,10 @@ def render_fn(repo: Repo, fb: FnBlock, rules: Counter, info: dict, canary: bool 
     if fb.rename:
         sig = re.sub(r'\bfn\s+' + re.escape(fb.name) + r'(?![A-Za-z0-9_])', 'fn ' + fb.rename, sig, count=1)
     for (a, b) in fb.sigsub:
-        if a not in sig:
+        pat = re.compile(r'\s*'.join(re.escape(tok) for tok in a.split()))
+        if not pat.search(sig):
             raise LostAnchor(f'signature text `{a}` of fn {fb.name} not found')
-        sig = sig.replace(a, b)
+        sig = pat.sub(lambda _m: b, sig)
         rules['S1'] += 1
     sig = name_return(sig, fb.ret, rules)
     info['functions'].append({'fn': fb.name, 'impl': fb.impl.strip(), 'file': fb.rel, 'line': line,
@@ -657,7 +666,7 @@ def build_unit(template_path: str, repo_root: str, verif_root: str, canary: bool
                     fb.bodysub.append((a.strip(), b.strip(), False))
                 elif s2.startswith('//@sigsub '):
                     flush()
-                    a, b = s2[len('//@sigsub '):].split('=>')
+                    a, b = s2[len('//@sigsub '):].split(' => ', 1) if ' => ' in s2 else (s2[len('//@sigsub '):].rstrip('=>').rstrip(), '')
                     fb.sigsub.append((a.strip(), b.strip()))
                 elif s2.startswith('//@'):
                     raise Unsupported('unknown directive ' + s2)
